@@ -53,25 +53,23 @@ Section C02.
   Qed.
 
   Lemma rejected_unchanged s o : snd (step P s o) = false -> fst (step P s o) = s.
-  Proof. unfold step. destruct (exec P (fst o) s (snd o)); cbn; [discriminate | reflexivity | reflexivity]. Qed.
+  Proof. unfold step. destruct (deliver P (fst o) s (snd o)); cbn; [discriminate | reflexivity | reflexivity]. Qed.
 
   Lemma step_accepted s o : snd (step P s o) = true -> exec P (fst o) s (snd o) = Ok (fst (step P s o)).
-  Proof. unfold step. destruct (exec P (fst o) s (snd o)); cbn; [reflexivity | discriminate | discriminate]. Qed.
+  Proof.
+    unfold step. destruct (deliver P (fst o) s (snd o)) eqn:D; cbn; [intros _; apply deliver_ok in D; exact D | discriminate | discriminate].
+  Qed.
 
   (** every message that is not verified is rejected and changes nothing *)
   Lemma unverified_recv_rejected env s m cb : ~ recv_verified env s m -> step P s (env, ARecv m cb) = (s, false).
   Proof.
-    intro N. unfold step. cbn [fst snd].
-    destruct (exec P env s (ARecv m cb)) as [s'| |] eqn:E; try reflexivity.
-    exfalso. apply N. eapply recv_accepted_verified; exact E.
+    intro N. apply step_rejected. intros s' E. apply N. eapply recv_accepted_verified; exact E.
   Qed.
 
   Lemma unverified_ack_rejected env s m cb1 cb2 cb3 :
     ~ ack_verified env s m -> step P s (env, AAck m cb1 cb2 cb3) = (s, false).
   Proof.
-    intro N. unfold step. cbn [fst snd].
-    destruct (exec P env s (AAck m cb1 cb2 cb3)) as [s'| |] eqn:E; try reflexivity.
-    exfalso. apply N. eapply ack_accepted_verified; exact E.
+    intro N. apply step_rejected. intros s' E. apply N. eapply ack_accepted_verified; exact E.
   Qed.
 
   (** altered message: the client does not verify the recomputed commitment of the altered packet / proof / height *)
